@@ -255,6 +255,7 @@ static void op_dns_direct(vin_t *in) {
 	uint32_t nbs = vin_u32(in);
 	const uint8_t *q = vin_blob(in, &qn);
 	uint32_t count = vin_u32(in);
+	uint32_t fm = vin_u32(in);
 	uint8_t *blk, *qname, *nameout, *rd;
 	dns_hdr_p hdr;
 	size_t tm, sz, off, cnt, rsz, nl;
@@ -266,15 +267,17 @@ static void op_dns_direct(vin_t *in) {
 	qname = vx_dup(q, qn);
 	nameout = vx_alloc(nbs, 0xA5);
 
-	rc = dns_msg_validate(hdr, n); seen(V_DNS_INFO); rc_add(rc);
-	if (0 == rc) accept_(V_DNS_INFO);
-	sz = dns_msg_size_get(hdr, n);
-	if (sz > n) span_fail("dns_msg_size_get:ret", "ret=%zu size=%zu %zu", sz, n, 0);
-
-	tm = 0;
-	rc = dns_msg_sequence_of_labels_get_name_len(hdr, n, offset, &tm); rc_add(rc);
-
-	if (0 != nbs) {
+	if (fm & 1) {
+		rc = dns_msg_validate(hdr, n); seen(V_DNS_INFO); rc_add(rc);
+		if (0 == rc) accept_(V_DNS_INFO);
+		sz = dns_msg_size_get(hdr, n);
+		if (sz > n) span_fail("dns_msg_size_get:ret", "ret=%zu size=%zu %zu", sz, n, 0);
+	}
+	if (fm & 2) {
+		tm = 0;
+		rc = dns_msg_sequence_of_labels_get_name_len(hdr, n, offset, &tm); rc_add(rc);
+	}
+	if (0 != nbs && (fm & 4)) {
 		tm = 0;
 		rc = dns_msg_sequence_of_labels2name(hdr, n, offset, nameout, nbs, &tm);
 		seen(V_DNS_LABELS2NAME); rc_add(rc);
@@ -284,12 +287,16 @@ static void op_dns_direct(vin_t *in) {
 				span_fail("dns_msg_sequence_of_labels2name:name_len_ret",
 				    "ret=%zu name_buf_size=%zu %zu", tm, nbs, 0);
 		}
+	}
+	if (0 != nbs && (fm & 8)) {
 		nl = nbs; rsz = 0;
 		rc = dns_msg_question_get_data(hdr, n, offset, nameout, &nl, &t, &c, &rsz);
 		rc_add(rc);
 		if (0 == rc && (0 == rsz || (offset + rsz) > n))
 			span_fail("dns_msg_question_get_data:question_size_ret",
 			    "off=%zu q_size=%zu size=%zu", offset, rsz, n);
+	}
+	if (0 != nbs && (fm & 16)) {
 		nl = nbs; rsz = 0; rd = NULL; ds = 0;
 		rc = dns_msg_rr_get_data(hdr, n, offset, nameout, &nl, &t, &c, &ttl, &ds,
 		    (void**)&rd, &rsz);
@@ -303,6 +310,7 @@ static void op_dns_direct(vin_t *in) {
 				touch(rd, ds);
 		}
 	}
+	if (fm & 32) {
 	rsz = 0; rd = NULL; ds = 0;
 	rc = dns_msg_rr_get_data(hdr, n, offset, NULL, NULL, &t, &c, &ttl, &ds,
 	    (void**)&rd, &rsz);
@@ -315,6 +323,8 @@ static void op_dns_direct(vin_t *in) {
 		else
 			touch(rd, ds);
 	}
+	}
+	if (fm & 64) {
 	off = offset; cnt = count; rsz = 0; rd = NULL; ds = 0;
 	rc = dns_msg_rr_find(hdr, n, &off, &cnt, qname, qn, &t, &c, &ttl, &ds,
 	    (void**)&rd, &rsz);
@@ -327,6 +337,7 @@ static void op_dns_direct(vin_t *in) {
 		else
 			touch(rd, ds);
 	}
+	}
 	vx_free(nameout, nbs); vx_free(qname, qn); vx_free(blk, n);
 }
 
@@ -334,6 +345,7 @@ static void op_dns_labels(vin_t *in) {
 	size_t n;
 	const uint8_t *m = vin_blob(in, &n);
 	uint32_t nbs = vin_u32(in);
+	uint32_t fm = vin_u32(in);
 	uint8_t *blk, *nameout;
 	size_t tm;
 	int rc;
@@ -341,19 +353,23 @@ static void op_dns_labels(vin_t *in) {
 	if (in->bad) { rc_add(252); return; }
 	blk = vx_dup(m, n);
 	nameout = vx_alloc(nbs, 0xA5);
-	tm = 0;
-	rc = SequenceOfLabelsGetSize(blk, n, &tm);
-	seen(V_DNS_LABELS_SIZE); rc_add(rc);
-	if (0 == rc) {
-		accept_(V_DNS_LABELS_SIZE);
-		if (tm > n)
-			span_fail("SequenceOfLabelsGetSize:name_len_ret", "ret=%zu buf_size=%zu %zu", tm, n, 0);
+	if (fm & 1) {
+		tm = 0;
+		rc = SequenceOfLabelsGetSize(blk, n, &tm);
+		seen(V_DNS_LABELS_SIZE); rc_add(rc);
+		if (0 == rc) {
+			accept_(V_DNS_LABELS_SIZE);
+			if (tm > n)
+				span_fail("SequenceOfLabelsGetSize:name_len_ret", "ret=%zu buf_size=%zu %zu", tm, n, 0);
+		}
 	}
-	tm = 0;
-	rc = SequenceOfLabelsToDomainName(blk, n, nameout, nbs, &tm);
-	rc_add(rc);
-	if (0 == rc && tm > n)
-		span_fail("SequenceOfLabelsToDomainName:name_len_ret", "ret=%zu buf_size=%zu %zu", tm, n, 0);
+	if (fm & 2) {
+		tm = 0;
+		rc = SequenceOfLabelsToDomainName(blk, n, nameout, nbs, &tm);
+		rc_add(rc);
+		if (0 == rc && tm > n)
+			span_fail("SequenceOfLabelsToDomainName:name_len_ret", "ret=%zu buf_size=%zu %zu", tm, n, 0);
+	}
 	vx_free(nameout, nbs); vx_free(blk, n);
 }
 
@@ -507,13 +523,15 @@ static void op_http_req(vin_t *in) {
 	const uint8_t *m = vin_blob(in, &n);
 	const uint8_t *hn = vin_blob(in, &hnl);
 	const uint8_t *qn = vin_blob(in, &qnl);
+	uint32_t fm = vin_u32(in); /* exact mode: 1 req line (+query), 2 sec_chk, 4 header accessors, 8 status line */
 	uint8_t *blk, *hname, *qname;
 	const uint8_t *p, *v; size_t vs;
 	http_req_line_data_t line;
 	http_resp_line_data_t rl;
-	int rc, sec;
+	int rc = -1, sec;
 
 	if (in->bad) { rc_add(252); return; }
+	if (1 == mode) fm = 7;
 	blk = vx_dup(m, n);
 	hname = vx_dup(hn, hnl);
 	qname = vx_dup(qn, qnl);
@@ -525,8 +543,10 @@ static void op_http_req(vin_t *in) {
 		hsz = n;
 	}
 	memset(&line, 0x00, sizeof(line));
+	if (fm & 1) {
 	rc = http_parse_req_line(blk, hsz, &line);
 	seen(V_HTTP_REQLINE); rc_add(rc);
+	}
 	if (0 == rc) {
 		accept_(V_HTTP_REQLINE);
 		if (line.line_size > hsz)
@@ -541,20 +561,23 @@ static void op_http_req(vin_t *in) {
 		}
 	}
 	if (1 == mode && 0 != rc) goto out;
+	if (fm & 2) {
 	sec = http_req_sec_chk(blk, hsz, (0 == rc) ? line.method_code : HTTP_REQ_METHOD_UNKNOWN);
 	seen(V_HTTP_SEC); rc_add(sec);
 	if (0 == sec) accept_(V_HTTP_SEC);
 	if (1 == mode && 0 != sec) goto out;
+	}
 	if (0 != g_nfail) goto out;
 
-	http_hdr_accessors(blk, hsz, hname, hnl);
+	if (fm & 4)
+		http_hdr_accessors(blk, hsz, hname, hnl);
 	if (0 == rc && NULL != line.query) { /* http_server_auth.c */
 		v = NULL; vs = 0;
 		rc = http_query_val_get(line.query, line.query_size, qname, qnl, &v, &vs);
 		g_acc++; rc_add(rc);
 		if (0 == rc) chk_opt_span("http_query_val_get:val_ret", v, vs, line.query, line.query_size);
 	}
-	if (0 == mode) {
+	if (0 == mode && (fm & 8)) {
 		memset(&rl, 0x00, sizeof(rl));
 		rc = http_parse_resp_line(blk, hsz, &rl);
 		seen(V_HTTP_RESPLINE); rc_add(rc);
@@ -575,6 +598,7 @@ static void op_http_query(vin_t *in) {
 	size_t n, qnl, nsz;
 	const uint8_t *m = vin_blob(in, &n);
 	const uint8_t *qn = vin_blob(in, &qnl);
+	uint32_t fm = vin_u32(in);
 	uint8_t *blk, *qname;
 	const uint8_t *vn, *v; size_t vs, cnt;
 	int rc;
@@ -582,20 +606,24 @@ static void op_http_query(vin_t *in) {
 	if (in->bad) { rc_add(252); return; }
 	blk = vx_dup(m, n);
 	qname = vx_dup(qn, qnl);
-	vn = NULL; v = NULL; vs = 0;
-	rc = http_query_val_get_ex(blk, n, qname, qnl, &vn, &v, &vs);
-	rc_add(rc);
-	if (0 == rc) {
-		chk_opt_span("http_query_val_get_ex:val_ret", v, vs, blk, n);
-		chk_opt_span("http_query_val_get_ex:val_name_ret", vn, 0, blk, n);
+	if (fm & 1) {
+		vn = NULL; v = NULL; vs = 0;
+		rc = http_query_val_get_ex(blk, n, qname, qnl, &vn, &v, &vs);
+		rc_add(rc);
+		if (0 == rc) {
+			chk_opt_span("http_query_val_get_ex:val_ret", v, vs, blk, n);
+			chk_opt_span("http_query_val_get_ex:val_name_ret", vn, 0, blk, n);
+		}
 	}
-	nsz = n;
-	cnt = http_query_val_del(blk, n, qname, qnl, &nsz);
-	rc_add((int)MIN(cnt, 200));
-	if (nsz > n)
-		span_fail("http_query_val_del:query_size_ret", "ret=%zu size=%zu %zu", nsz, n, 0);
-	else
-		touch(blk, nsz);
+	if (fm & 2) {
+		nsz = n;
+		cnt = http_query_val_del(blk, n, qname, qnl, &nsz);
+		rc_add((int)MIN(cnt, 200));
+		if (nsz > n)
+			span_fail("http_query_val_del:query_size_ret", "ret=%zu size=%zu %zu", nsz, n, 0);
+		else
+			touch(blk, nsz);
+	}
 	vx_free(qname, qnl); vx_free(blk, n);
 }
 
@@ -673,37 +701,48 @@ static void op_http_urldec(vin_t *in) {
 static void op_http_ws(vin_t *in) {
 	size_t n, rs;
 	const uint8_t *m = vin_blob(in, &n);
+	uint32_t fm = vin_u32(in);
 	uint8_t *blk, *obuf;
 	const uint8_t *ret;
 	int rc;
 
 	if (in->bad) { rc_add(252); return; }
 	blk = vx_dup(m, n);
-	ret = NULL; rs = 0;
-	rc = skip_spwsp(blk, n, &ret, &rs); rc_add(rc);
-	if (0 == rc && (!in_span(ret, rs, blk, n) || (ret + rs) != (blk + n)))
-		span_fail("skip_spwsp:buf_ret", "ptr_off=%zd len=%zu size=%zu", (size_t)(ret - blk), rs, n);
-	ret = NULL; rs = 0;
-	rc = skip_spwsp2(blk, n, &ret, &rs); rc_add(rc);
-	if (0 == rc && !in_span(ret, rs, blk, n))
-		span_fail("skip_spwsp2:buf_ret", "ptr_off=%zd len=%zu size=%zu", (size_t)(ret - blk), rs, n);
+	if (fm & 1) {
+		ret = NULL; rs = 0;
+		rc = skip_spwsp(blk, n, &ret, &rs); rc_add(rc);
+		if (0 == rc && (!in_span(ret, rs, blk, n) || (ret + rs) != (blk + n)))
+			span_fail("skip_spwsp:buf_ret", "ptr_off=%zd len=%zu size=%zu", (size_t)(ret - blk), rs, n);
+	}
+	if (fm & 2) {
+		ret = NULL; rs = 0;
+		rc = skip_spwsp2(blk, n, &ret, &rs); rc_add(rc);
+		if (0 == rc && !in_span(ret, rs, blk, n))
+			span_fail("skip_spwsp2:buf_ret", "ptr_off=%zd len=%zu size=%zu", (size_t)(ret - blk), rs, n);
+	}
 	/* wsp2sp into a separate buffer of the same size, then in place. */
 	obuf = vx_alloc(n, 0xA5);
-	rs = 0;
-	rc = wsp2sp(blk, n, obuf, &rs); rc_add(rc);
-	if (0 == rc) {
-		if (rs > n) span_fail("wsp2sp:buf_size_ret", "ret=%zu size=%zu %zu", rs, n, 0);
-		else touch(obuf, rs);
+	if (fm & 4) {
+		rs = 0;
+		rc = wsp2sp(blk, n, obuf, &rs); rc_add(rc);
+		if (0 == rc) {
+			if (rs > n) span_fail("wsp2sp:buf_size_ret", "ret=%zu size=%zu %zu", rs, n, 0);
+			else touch(obuf, rs);
+		}
 	}
-	rs = 0;
-	rc = ht2sp(blk, n, obuf, &rs); rc_add(rc);
-	if (0 == rc && rs > n) span_fail("ht2sp:buf_size_ret", "ret=%zu size=%zu %zu", rs, n, 0);
+	if (fm & 8) {
+		rs = 0;
+		rc = ht2sp(blk, n, obuf, &rs); rc_add(rc);
+		if (0 == rc && rs > n) span_fail("ht2sp:buf_size_ret", "ret=%zu size=%zu %zu", rs, n, 0);
+	}
 	vx_free(obuf, n);
-	rs = 0;
-	rc = wsp2sp(blk, n, blk, &rs); rc_add(rc);
-	if (0 == rc) {
-		if (rs > n) span_fail("wsp2sp:buf_size_ret", "ret=%zu size=%zu %zu", rs, n, 0);
-		else touch(blk, rs);
+	if (fm & 16) {
+		rs = 0;
+		rc = wsp2sp(blk, n, blk, &rs); rc_add(rc);
+		if (0 == rc) {
+			if (rs > n) span_fail("wsp2sp:buf_size_ret", "ret=%zu size=%zu %zu", rs, n, 0);
+			else touch(blk, rs);
+		}
 	}
 	vx_free(blk, n);
 }
@@ -794,31 +833,40 @@ static void op_sdp(vin_t *in) {
 	uint8_t type = vin_u8(in);
 	uint32_t start_line = vin_u32(in);
 	uint32_t maxf = vin_u32(in);
+	uint32_t fm = vin_u32(in);
 	uint8_t *blk, *v;
 	uint8_t **feilds; size_t *fsizes;
 	int rc;
 
 	if (in->bad || maxf > 64) { rc_add(252); return; }
 	blk = vx_dup(m, n);
-	rc = sdp_msg_sec_chk(blk, n);
-	seen(V_SDP_SEC); rc_add(rc);
-	if (0 == rc) accept_(V_SDP_SEC);
-	line = start_line; line0 = line; v = NULL; vs = 0;
-	rc = sdp_msg_type_get(blk, n, type, &line, &v, &vs); rc_add(rc);
-	if (0 == rc) {
-		chk_opt_span("sdp_msg_type_get:val_ret", v, vs, blk, n);
-		if (line < line0)
-			span_fail("sdp_msg_type_get:line", "line=%zu start=%zu %zu", line, line0, 0);
+	if (fm & 1) {
+		rc = sdp_msg_sec_chk(blk, n);
+		seen(V_SDP_SEC); rc_add(rc);
+		if (0 == rc) accept_(V_SDP_SEC);
 	}
-	cnt = sdp_msg_type_get_count(blk, n, type); rc_add((int)MIN(cnt, 200));
-	feilds = (uint8_t**)vx_alloc(maxf * sizeof(uint8_t*), 0xA5);
-	fsizes = (size_t*)vx_alloc(maxf * sizeof(size_t), 0xA5);
-	cnt = sdp_msg_feilds_get(blk, n, maxf, feilds, fsizes); rc_add((int)MIN(cnt, 200));
-	if (cnt > maxf) span_fail("sdp_msg_feilds_get:ret", "ret=%zu max=%zu %zu", cnt, maxf, 0);
-	else for (i = 0; i < cnt; i++)
-		chk_opt_span("sdp_msg_feilds_get:feilds", feilds[i], fsizes[i], blk, n);
-	vx_free((uint8_t*)fsizes, maxf * sizeof(size_t));
-	vx_free((uint8_t*)feilds, maxf * sizeof(uint8_t*));
+	if (fm & 2) {
+		line = start_line; line0 = line; v = NULL; vs = 0;
+		rc = sdp_msg_type_get(blk, n, type, &line, &v, &vs); rc_add(rc);
+		if (0 == rc) {
+			chk_opt_span("sdp_msg_type_get:val_ret", v, vs, blk, n);
+			if (line < line0)
+				span_fail("sdp_msg_type_get:line", "line=%zu start=%zu %zu", line, line0, 0);
+		}
+	}
+	if (fm & 4) {
+		cnt = sdp_msg_type_get_count(blk, n, type); rc_add((int)MIN(cnt, 200));
+	}
+	if (fm & 8) {
+		feilds = (uint8_t**)vx_alloc(maxf * sizeof(uint8_t*), 0xA5);
+		fsizes = (size_t*)vx_alloc(maxf * sizeof(size_t), 0xA5);
+		cnt = sdp_msg_feilds_get(blk, n, maxf, feilds, fsizes); rc_add((int)MIN(cnt, 200));
+		if (cnt > maxf) span_fail("sdp_msg_feilds_get:ret", "ret=%zu max=%zu %zu", cnt, maxf, 0);
+		else for (i = 0; i < cnt; i++)
+			chk_opt_span("sdp_msg_feilds_get:feilds", feilds[i], fsizes[i], blk, n);
+		vx_free((uint8_t*)fsizes, maxf * sizeof(size_t));
+		vx_free((uint8_t*)feilds, maxf * sizeof(uint8_t*));
+	}
 	vx_free(blk, n);
 }
 
@@ -932,10 +980,12 @@ static void fuzz_one(uint8_t group, const uint8_t *data, size_t size) {
 			*p++ = OP_DNS_DIRECT; w_blob(&p, data, size);
 			w_u32(&p, (uint32_t)a + (((uint32_t)(sel >> 4)) << 8)); w_u32(&p, (uint32_t)b + 1);
 			w_blob(&p, (const uint8_t*)"www.example.com", 15); w_u32(&p, sel >> 2);
+			w_u32(&p, 1u << (b % 7));
 			break;
 		default:
 			*p++ = OP_DNS_LABELS; w_blob(&p, data, size);
 			w_u32(&p, (a & 1) ? (uint32_t)b : (uint32_t)size);
+			w_u32(&p, 1u << ((a >> 1) & 1));
 			break;
 		}
 		break;
@@ -950,9 +1000,11 @@ static void fuzz_one(uint8_t group, const uint8_t *data, size_t size) {
 		case 0:
 			*p++ = OP_HTTP_REQ; *p++ = (a & 1); w_blob(&p, data, size);
 			w_blob(&p, (const uint8_t*)"host", 4); w_blob(&p, (const uint8_t*)"a", 1);
+			w_u32(&p, 1u << (b & 3));
 			break;
 		case 1:
 			*p++ = OP_HTTP_QUERY; w_blob(&p, data, size); w_blob(&p, (const uint8_t*)"a", 1);
+			w_u32(&p, 1u << (b & 1));
 			break;
 		case 2:
 			*p++ = OP_HTTP_HDR_REMOVE; w_blob(&p, data, size); w_blob(&p, (const uint8_t*)"host", 4);
@@ -966,6 +1018,7 @@ static void fuzz_one(uint8_t group, const uint8_t *data, size_t size) {
 			break;
 		default:
 			*p++ = OP_HTTP_WS; w_blob(&p, data, size);
+			w_u32(&p, 1u << (b % 5));
 			break;
 		}
 		break;
@@ -974,7 +1027,7 @@ static void fuzz_one(uint8_t group, const uint8_t *data, size_t size) {
 			*p++ = OP_SAP; *p++ = (a & 1); w_blob(&p, data, size);
 		} else {
 			*p++ = OP_SDP; w_blob(&p, data, size); *p++ = (uint8_t)('a' + (a % 26));
-			w_u32(&p, b & 7); w_u32(&p, (b >> 3) & 15);
+			w_u32(&p, b & 7); w_u32(&p, (b >> 3) & 15); w_u32(&p, 1u << ((a >> 5) & 3));
 		}
 		break;
 	default: /* RTP / MPEG-TS / DHCP */
@@ -1042,20 +1095,124 @@ int LLVMFuzzerTestOneInput(const uint8_t *data, size_t size) {
 	return 0;
 }
 #else
-int main(void) {
-	uint8_t *c; size_t len;
-	vout_t out;
+#include <sys/mman.h>
+#include <sys/wait.h>
 
-	memset(&out, 0, sizeof(out));
+/* The driver is built with -fsanitize-recover=address.  In the plain protocol
+ * ASan runs with halt_on_error=1 and every report ends the process.  In --fork
+ * mode it runs with halt_on_error=0 and this callback (called after the report
+ * text has been printed) decides: an out-of-bounds READ cannot damage the
+ * process, so the case is merely marked as reported and the child goes on
+ * with the next case; any other report (WRITE, free errors, SEGV, ...) ends
+ * the child as before.  Either way the first report of a case decides its key. */
+void __asan_set_error_report_callback(void (*cb)(const char *));
+static volatile uint32_t g_asan_reports;
+static int g_forkmode;
+
+static void on_asan_report(const char *text) {
+	g_asan_reports++;
+	if (0 == g_forkmode || g_asan_reports > 6 || NULL == text ||
+	    NULL == strstr(text, "READ of size") ||
+	    (NULL == strstr(text, "heap-buffer-overflow") && NULL == strstr(text, "unknown-crash")))
+		_exit(86);
+}
+
+static vout_t g_vout;
+
+static void emit_marker(size_t idx, int code) {
+	char line[96];
+	uint8_t marker[8];
+
+	snprintf(line, sizeof(line), "\nVERIF-CASE-END %zu status=%d\n", idx, code);
+	(void)!write(2, line, strlen(line));
+	memcpy(marker, "\xff\xfe" "CRASH", 7);
+	marker[7] = (uint8_t)code;
+	g_vout.n = 0;
+	vout_raw(&g_vout, marker, 8);
+	vout_flush(&g_vout);
+}
+
+static void one_case(const uint8_t *c, size_t len, size_t idx) {
+	obs_reset();
+	g_asan_reports = 0;
+	vdrv_dirty_stack((uint8_t)len);
+	run_case(c, len);
+	if (0 != g_asan_reports) { /* only reachable in --fork mode */
+		emit_marker(idx, 86);
+		return;
+	}
+	obs_write(&g_vout);
+	vout_flush(&g_vout);
+}
+
+/* --fork: all cases are read first; a child process runs them in order and
+ * writes the observations itself.  When a sanitizer (or the CPU alarm) kills
+ * the child, the parent emits a crash-marker observation for the case that was
+ * running, a "VERIF-CASE-END <index> status=<n>" line on stderr (so the report
+ * text before it belongs to that case) and forks a new child for the rest.
+ * One fork per fatal report instead of a new process image and re-fed input. */
+static int main_fork(void) {
+	uint8_t **cs = NULL, *c;
+	size_t *ls = NULL, len, n = 0, cap = 0, next = 0, i, j;
+	volatile uint32_t *progress;
+	struct itimerval it;
+	pid_t pid;
+	int st, code;
+
+	g_forkmode = 1;
+	while (NULL != (c = vdrv_next_case(&len))) {
+		if (n == cap) {
+			cap = (cap * 2) + 256;
+			cs = realloc(cs, cap * sizeof(cs[0]));
+			ls = realloc(ls, cap * sizeof(ls[0]));
+		}
+		cs[n] = c; ls[n] = len; n++;
+	}
+	memset(&it, 0, sizeof(it));
+	setitimer(ITIMER_VIRTUAL, &it, NULL);
+	progress = mmap(NULL, 4096, PROT_READ | PROT_WRITE, MAP_SHARED | MAP_ANONYMOUS, -1, 0);
+	if (MAP_FAILED == (void*)progress) return 99;
+	while (next < n) {
+		progress[0] = (uint32_t)next; progress[1] = (uint32_t)next;
+		pid = fork();
+		if (-1 == pid) return 99;
+		if (0 == pid) {
+			for (i = next; i < n; i++) {
+				progress[0] = (uint32_t)i;
+				vdrv_arm();
+				one_case(cs[i], ls[i], i);
+				progress[1] = (uint32_t)(i + 1);
+			}
+			_exit(0);
+		}
+		while (-1 == waitpid(pid, &st, 0) && EINTR == errno)
+			;
+		if (WIFEXITED(st) && 0 == WEXITSTATUS(st) && progress[1] >= n)
+			break;
+		j = progress[0];
+		if (progress[1] > j) { /* died after the observation was written */
+			next = progress[1];
+			continue;
+		}
+		code = WIFEXITED(st) ? WEXITSTATUS(st) : (128 + WTERMSIG(st));
+		emit_marker(j, code);
+		next = (j + 1);
+	}
+	return 0;
+}
+
+int main(int argc, char **argv) {
+	uint8_t *c; size_t len;
+
+	memset(&g_vout, 0, sizeof(g_vout));
 	vdrv_case_secs = 5;
 	vdrv_init();
 	dhcp4_static_init();
+	__asan_set_error_report_callback(on_asan_report);
+	if (argc > 1 && 0 == strcmp(argv[1], "--fork"))
+		return main_fork();
 	while (NULL != (c = vdrv_next_case(&len))) {
-		obs_reset();
-		vdrv_dirty_stack((uint8_t)len);
-		run_case(c, len);
-		obs_write(&out);
-		vout_flush(&out);
+		one_case(c, len, 0);
 		free(c);
 	}
 	return 0;
